@@ -171,7 +171,7 @@ func (r ValueRange) NumberUpperBound() (max Value, inclusive bool) {
 		}
 		return rfn.max, rfn.maxInc
 	}
-	return PositiveInfinity, false
+	return PositiveInfinity, true
 }
 
 // StringPrefix returns a string that is guaranteed to be the prefix of
